@@ -127,7 +127,7 @@ def job(j):
         if rec["kind"] != "model":
             return
         pieces, image = rec["pieces"], rec["image"]
-        routes = sw.ROUTES if (st["n"] % j.get("route_every", 1) == 0) else ["string"]
+        routes = (sw.ROUTES + ["string"]) if (st["n"] % j.get("route_every", 1) == 0) else (["string", "string"] if st["n"] % 4 == 1 else ["string"])
         for route in routes:
             st["n"] += 1
             eng, exc = sw.cook_model(pieces, route)
